@@ -55,6 +55,14 @@ def gen_cases(ck):
                       "shift": [0.0, 0.0], "p_rev": 0.5, "shifts": True, "relabel": False, "fit": ["dlite", "taubinSVD"][i % 2],
                       "method": [None, "lsq_linear"][(i // 2) % 2], "ne": None, "axis_ridge": True})
     for i in range(4 if ck.tier == "quick" else 24):
+        # the frame was assembled and solved before with a finite angle limit that excludes interfaces; then with the default options
+        mob = bool(i % 2)
+        cases.append({"type": "tissue", "seed": int(ck.rng.integers(1 << 30)), "tissue": ["random", "jitter", "hex"][i % 3], "sites": int(ck.rng.integers(24, 50)),
+                      "subset": None, "min_ridge": 0.004, "mobius": mob, "strength": float(ck.rng.uniform(0.5, 2.0)), "kmin": 1 if mob else 0, "kmax": 6,
+                      "param_mode": "uniform", "angle": float(ck.rng.uniform(0, 2 * math.pi)), "scale": float(10.0 ** ck.rng.uniform(-1, 1)),
+                      "shift": [0.0, 0.0], "p_rev": 0.5, "shifts": True, "relabel": bool(i % 2), "fit": ["dlite", "taubinSVD"][i % 2],
+                      "method": [None, "lsq", "lsq_linear"][i % 3], "ne": None, "prior_limit": float(ck.rng.uniform(0.7, 0.85) * math.pi)})
+    for i in range(4 if ck.tier == "quick" else 24):
         # straight interfaces with interior points, the algebraic fit, after an earlier analysis of a tiny tissue in the same process
         cases.append({"type": "tissue", "seed": int(ck.rng.integers(1 << 30)), "tissue": ["random", "jitter", "hex"][i % 3], "sites": int(ck.rng.integers(24, 44)),
                       "subset": None, "min_ridge": 0.004, "mobius": False, "strength": 1.0, "kmin": 1, "kmax": 4, "param_mode": "uniform",
@@ -111,7 +119,8 @@ def run_case(ck, case, reqs, pending):
             except Exception as ex:
                 ck.count("earlier_small_lsq_solve_raised_" + type(ex).__name__)
     try:
-        ph = physical.run_static(sc, fit=fit, method=method, ne=ne, replace=replace, reset_err=not earlier)
+        ph = physical.run_static(sc, fit=fit, method=method, ne=ne, replace=replace, reset_err=not earlier,
+                                 prior_limit=(case["prior_limit"] if case.get("prior_limit") else None))
     except Exception as ex:
         ck.fail("static inference completes on an equilibrium tissue", f"{type(ex).__name__}: {str(ex)[:160]}", case)
         ck.case(case); return
